@@ -277,6 +277,7 @@ class Repo:
 
     def function(self, fq: str) -> FunctionInfo:
         """fq = module.qualname where qualname may contain one dot (Class.method)."""
+        fq = fq.split("@")[0]  # "<function>@<variant>" names a variant contract on the same function
         parts = fq.split(".")
         for cut in (len(parts) - 1, len(parts) - 2):
             if cut <= 0:
